@@ -26,7 +26,7 @@ REQUIRED = {"C14": {"healthy-package": 200, "fault:duplicate": 30, "fault:defaul
                     "select:none": 30, "period-api": 200, "period-run": 60, "iteration-checked": 2000, "after-disable-silent": 100,
                     "other-modes-silent-checked": 200, "chooser-options-checked": 200, "disable-after-run-silent": 30, "disable-mid-run": 15, "reselected-between-periods": 50, "elapsed-time-checked": 500,
                     "mode-class-imported-from-library-module": 20, "run-period-of-1ms": 5,
-                    "fault-is-a-BaseException": 10, "falsy-mode-object-chosen": 5}}
+                    "fault-is-a-BaseException": 10, "missing-dotted-package": 3, "falsy-mode-object-chosen": 5}}
 ASSUMPTIONS = {"C14": ["a mode class re-exported by a second module is not generated (the statement does not say whether it is found twice)",
                        "a mode class that exactly one package module imports from a module outside the package counts as 'found in the modules of the package'",
                        "with several DEFAULT modes and the FMS attached the preselected mode may be any of them",
@@ -41,8 +41,10 @@ def shards(pid, tier, seed):
 
 def gen_case(rng, uid):
     pkg = f"auto_{uid}"
+    if rng.random() < 0.03:
+        pkg = f"nopkg_{uid}.autonomous"       # a dotted name whose parent package does not exist either (always 'missing')
     fault = rng.choice([None, None, None, "duplicate", "defaults", "import", "syntax", "ctor"])
-    missing = rng.random() < 0.04
+    missing = rng.random() < 0.04 or "." in pkg
     nmod = rng.choice([0, 1, 2, 3, 5])
     modules = []
     names_used = []
@@ -94,6 +96,8 @@ def gen_case(rng, uid):
             m["broken"] = fault
             if fault == "import" and rng.random() < 0.3:
                 m["broken"] = "import-base"      # the import fails with a BaseException subclass (sys.exit() at module level)
+            elif fault == "import" and rng.random() < 0.4:
+                m["broken"] = "import-sibling"   # `from .helper_that_does_not_exist import X`: ModuleNotFoundError naming <pkg>.<x>
             applied = "import"
     elif fault == "ctor" and eligible:
         c_ = rng.choice(eligible)[1]
@@ -150,6 +154,8 @@ def write_package(case, root):
             src.append(f"from .{m['imports_helper_from']} import Helper")
         if m["broken"] == "import":
             src.append("raise RuntimeError('injected import failure')")
+        if m["broken"] == "import-sibling":
+            src.append("from .helper_that_does_not_exist import X")
         if m["broken"] == "import-base":
             src.append("raise rt.Fatal('injected import failure')")
         if m["broken"] == "syntax":
@@ -280,6 +286,8 @@ def run_case(acc, case):
             acc.ev("fault:" + f)
         if case["missing"]:
             acc.ev("missing-package")
+            if "." in case["pkg"]:
+                acc.ev("missing-dotted-package")
         acc.checks += 1
         if faults and not case["fms"]:
             if exc is None:
